@@ -17,7 +17,11 @@ def get_comment(element):
     )
 
     if comment_element is not None:
-        return get_text(comment_element)
+        text = get_text(comment_element)
+        if text:
+            # Comments are emitted inside triple-quoted docstrings.
+            text = text.replace('\\', '\\\\').replace('"""', '\\"\\"\\"')
+        return text
 
     return None
 
